@@ -1,0 +1,225 @@
+//! Verification hooks (compiled only with `--cfg taffy_verif`): thin `pub` wrappers that let an external
+//! harness drive the crate-private grid track functions directly. Add-only; nothing here is used by the library.
+#![allow(missing_docs)]
+use super::explicit_grid::{compute_explicit_grid_size_in_axis, initialize_grid_tracks};
+use super::track_sizing::{
+    determine_if_item_crosses_flexible_or_intrinsic_tracks, track_sizing_algorithm, verif as ts,
+};
+use super::types::{GridItem, GridTrack, GridTrackKind, TrackCounts};
+use super::OriginZeroLine;
+use crate::geometry::{AbsoluteAxis, AbstractAxis, Line, Size};
+use crate::style::{
+    AlignContent, AlignItems, AvailableSpace, LengthPercentage, MaxTrackSizingFunction, MinTrackSizingFunction,
+    NonRepeatedTrackSizingFunction, Overflow, Style, TrackSizingFunction,
+};
+use crate::tree::{Layout, LayoutInput, LayoutOutput, LayoutPartialTree, NodeId, TraversePartialTree};
+use crate::util::sys::Vec;
+
+/// What a `GridTrack` looks like from outside
+#[derive(Debug, Clone, Copy, PartialEq)]
+pub struct VTrack {
+    pub is_gutter: bool,
+    pub is_collapsed: bool,
+    pub min: MinTrackSizingFunction,
+    pub max: MaxTrackSizingFunction,
+    pub offset: f32,
+    pub base_size: f32,
+    pub growth_limit: f32,
+}
+
+impl VTrack {
+    pub fn track(min: MinTrackSizingFunction, max: MaxTrackSizingFunction) -> Self {
+        VTrack { is_gutter: false, is_collapsed: false, min, max, offset: 0.0, base_size: 0.0, growth_limit: 0.0 }
+    }
+    fn from_grid_track(t: &GridTrack) -> Self {
+        VTrack {
+            is_gutter: t.kind == GridTrackKind::Gutter,
+            is_collapsed: t.is_collapsed,
+            min: t.min_track_sizing_function,
+            max: t.max_track_sizing_function,
+            offset: t.offset,
+            base_size: t.base_size,
+            growth_limit: t.growth_limit,
+        }
+    }
+    fn to_grid_track(&self) -> GridTrack {
+        let mut t = GridTrack::new(self.min, self.max);
+        if self.is_gutter {
+            t.kind = GridTrackKind::Gutter;
+        }
+        t.is_collapsed = self.is_collapsed;
+        t.offset = self.offset;
+        t.base_size = self.base_size;
+        t.growth_limit = self.growth_limit;
+        t
+    }
+}
+
+/// `compute_explicit_grid_size_in_axis` called through the `GridContainerStyle` impl of `&Style`
+pub fn explicit_grid_size_in_axis(
+    style: &Style,
+    template: &[TrackSizingFunction],
+    inner_container_size: Size<Option<f32>>,
+    horizontal: bool,
+) -> u16 {
+    let axis = if horizontal { AbsoluteAxis::Horizontal } else { AbsoluteAxis::Vertical };
+    compute_explicit_grid_size_in_axis(&style, template, inner_container_size, |_, _| 0.0, axis)
+}
+
+/// `initialize_grid_tracks`
+pub fn init_tracks(
+    counts: (u16, u16, u16),
+    template: &[TrackSizingFunction],
+    auto_tracks: &[NonRepeatedTrackSizingFunction],
+    gap: LengthPercentage,
+    track_has_items: &dyn Fn(usize) -> bool,
+) -> Vec<VTrack> {
+    let mut tracks: Vec<GridTrack> = Vec::new();
+    initialize_grid_tracks(
+        &mut tracks,
+        TrackCounts::from_raw(counts.0, counts.1, counts.2),
+        template,
+        auto_tracks,
+        gap,
+        track_has_items,
+    );
+    tracks.iter().map(VTrack::from_grid_track).collect()
+}
+
+/// `find_size_of_fr` on tracks given by (max track sizing function, base size)
+pub fn find_size_of_fr(tracks: &[VTrack], space_to_fill: f32) -> f32 {
+    let tracks: Vec<GridTrack> = tracks.iter().map(|t| t.to_grid_track()).collect();
+    ts::find_size_of_fr(&tracks, space_to_fill)
+}
+
+/// `maximise_tracks`
+pub fn maximise_tracks(tracks: &[VTrack], inner: Option<f32>, available: AvailableSpace) -> Vec<VTrack> {
+    let mut tracks: Vec<GridTrack> = tracks.iter().map(|t| t.to_grid_track()).collect();
+    ts::maximise_tracks(&mut tracks, inner, available);
+    tracks.iter().map(VTrack::from_grid_track).collect()
+}
+
+/// `stretch_auto_tracks`
+pub fn stretch_auto_tracks(tracks: &[VTrack], axis_min_size: Option<f32>, available: AvailableSpace) -> Vec<VTrack> {
+    let mut tracks: Vec<GridTrack> = tracks.iter().map(|t| t.to_grid_track()).collect();
+    ts::stretch_auto_tracks(&mut tracks, axis_min_size, available);
+    tracks.iter().map(VTrack::from_grid_track).collect()
+}
+
+/// A grid item reduced to what track sizing reads: its span (track numbers, `start..end`, zero-based, in the sized axis),
+/// whether it is a scroll container in that axis, and its three intrinsic contributions (incl. margins, which are zero here)
+#[derive(Debug, Clone, Copy)]
+pub struct VItem {
+    pub start: u16,
+    pub end: u16,
+    pub scroll_container: bool,
+    pub min_content: f32,
+    pub max_content: f32,
+    pub minimum: f32,
+}
+
+/// A tree that is never asked anything: every contribution is pre-seeded in the items' caches
+struct NoTree;
+impl TraversePartialTree for NoTree {
+    type ChildIter<'a> = core::iter::Empty<NodeId>;
+    fn child_ids(&self, _: NodeId) -> Self::ChildIter<'_> {
+        core::iter::empty()
+    }
+    fn child_count(&self, _: NodeId) -> usize {
+        0
+    }
+    fn get_child_id(&self, _: NodeId, _: usize) -> NodeId {
+        panic!("verif NoTree: get_child_id")
+    }
+}
+impl LayoutPartialTree for NoTree {
+    type CoreContainerStyle<'a> = &'a Style;
+    fn get_core_container_style(&self, _: NodeId) -> Self::CoreContainerStyle<'_> {
+        panic!("verif NoTree: get_core_container_style")
+    }
+    fn set_unrounded_layout(&mut self, _: NodeId, _: &Layout) {
+        panic!("verif NoTree: set_unrounded_layout")
+    }
+    fn compute_child_layout(&mut self, _: NodeId, _: LayoutInput) -> LayoutOutput {
+        panic!("verif NoTree: compute_child_layout (contribution was not pre-seeded)")
+    }
+}
+
+/// The whole `track_sizing_algorithm` for the inline axis on synthetic tracks (full vector: gutter, track, gutter, …)
+/// and items whose contributions are given numbers. Returns the tracks afterwards.
+#[allow(clippy::too_many_arguments)]
+pub fn track_sizing(
+    tracks: &[VTrack],
+    items: &[VItem],
+    axis_min_size: Option<f32>,
+    axis_max_size: Option<f32>,
+    axis_alignment: AlignContent,
+    available_grid_space: AvailableSpace,
+    inner_node_size: Option<f32>,
+) -> Vec<VTrack> {
+    let mut columns: Vec<GridTrack> = tracks.iter().map(|t| t.to_grid_track()).collect();
+    let zero = LengthPercentage::length(0.0);
+    let mut rows: Vec<GridTrack> = Vec::new();
+    rows.push(GridTrack::gutter(zero));
+    rows.push(GridTrack::new(MinTrackSizingFunction::auto(), MaxTrackSizingFunction::auto()));
+    rows.push(GridTrack::gutter(zero));
+    let style = Style::DEFAULT;
+    let mut gitems: Vec<GridItem> = items
+        .iter()
+        .enumerate()
+        .map(|(i, it)| {
+            let mut g = GridItem::new_with_placement_style_and_order(
+                NodeId::new(i as u64),
+                Line { start: OriginZeroLine(it.start as i16), end: OriginZeroLine(it.end as i16) },
+                Line { start: OriginZeroLine(0), end: OriginZeroLine(1) },
+                &style,
+                AlignItems::Stretch,
+                AlignItems::Stretch,
+                i as u16,
+            );
+            if it.scroll_container {
+                g.overflow.x = Overflow::Hidden;
+            }
+            g.column_indexes = Line { start: it.start * 2, end: it.end * 2 };
+            g.row_indexes = Line { start: 0, end: 2 };
+            g.available_space_cache = Some(Size::NONE);
+            g.min_content_contribution_cache.width = Some(it.min_content);
+            g.max_content_contribution_cache.width = Some(it.max_content);
+            g.minimum_contribution_cache.width = Some(it.minimum);
+            g
+        })
+        .collect();
+    determine_if_item_crosses_flexible_or_intrinsic_tracks(&mut gitems, &columns, &rows);
+    let mut tree = NoTree;
+    track_sizing_algorithm(
+        &mut tree,
+        AbstractAxis::Inline,
+        axis_min_size,
+        axis_max_size,
+        axis_alignment,
+        AlignContent::Start,
+        Size { width: available_grid_space, height: AvailableSpace::MaxContent },
+        Size { width: inner_node_size, height: None },
+        &mut columns,
+        &mut rows,
+        &mut gitems,
+        |track: &GridTrack, parent_size: Option<f32>, _tree: &NoTree| {
+            track.max_track_sizing_function.definite_value(parent_size, |_, _| 0.0)
+        },
+        false,
+    );
+    columns.iter().map(VTrack::from_grid_track).collect()
+}
+
+/// `align_tracks`: returns the offsets of all tracks (gutters included)
+pub fn align_tracks(
+    content_box_size: f32,
+    padding: Line<f32>,
+    border: Line<f32>,
+    tracks: &[VTrack],
+    alignment: AlignContent,
+) -> Vec<f32> {
+    let mut tracks: Vec<GridTrack> = tracks.iter().map(|t| t.to_grid_track()).collect();
+    super::alignment::align_tracks(content_box_size, padding, border, &mut tracks, alignment);
+    tracks.iter().map(|t| t.offset).collect()
+}
